@@ -343,7 +343,7 @@ class Gen:
 
     SCENARIOS = ["diamond", "captured", "chain", "sites", "zipmap", "nestedzip", "sharedlit", "matrix",
                  "ntupleidx", "objkeys", "zipsizes", "arraynewmix", "samelit", "failedcompile", "triangle", "kwcall", "closureloop", "litfold", "paramzip", "objorder",
-                 "mapinner", "badret", "nestedparam", "twoarrparams", "matrices", "nestedacc", "zerolit", "outparties", "arrayofop", "litparams", "literalout", "dupinputs"]
+                 "mapinner", "badret", "nestedparam", "twoarrparams", "matrices", "nestedacc", "zerolit", "outparties", "arrayofop", "litparams", "literalout", "dupinputs", "pubeq", "twiceinbody", "capturedout"]
 
     def scenario(self, k=None):
         rng = self.rng
@@ -746,13 +746,105 @@ class Gen:
             y = self.new_input("SecretInteger", party=p2)
             self.m.compile([[y, "out0", p1]])
             return None
+        if k == "pubeq":
+            # public_equals over every pair of secrecy modes (public receiver with a secret argument too), integers and
+            # unsigned integers; every result delivered, and one used as a condition
+            made = []
+            for base in rng.sample(["Integer", "UnsignedInteger"], 2):
+                vals = {m: self.new_input(m + base) for m in ("Public", "Secret")}
+                for x in ("Public", "Secret"):
+                    for y in ("Public", "Secret"):
+                        self.do({"op": "publicEquals", "a": vals[x], "b": vals[y]})
+                        if self.m.regs[self.last()] is not DEAD:
+                            made.append(self.last())
+                            if rng.random() < 0.4:
+                                self.do({"op": "ifElse", "c": self.last(), "a": vals["Public"], "b": vals["Public"]})
+                                if self.m.regs[self.last()] is not DEAD:
+                                    made.append(self.last())
+            rng.shuffle(made)
+            self.dist["compile"] = self.dist.get("compile", 0) + 1
+            self.m.compile([[r, f"out{i}", rng.choice(self.parties)] for i, r in enumerate(made[:6])])
+            return None
+        if k == "twiceinbody":
+            # a helper function that only another function's body uses, at two or more sites there (two calls; a map and a reduce)
+            def helper_body(ps):
+                self.do({"op": "bin", "bop": op(), "a": ps[0], "b": ps[0]})
+                return self.last()
+            h = fn1(helper_body)
+            if h is None:
+                return None
+
+            def user_body(ps, h=h):
+                self.do({"op": "call", "f": h, "args": [ps[0]]})
+                c1 = self.last()
+                self.do({"op": "call", "f": h, "args": [c1 if self.m.regs[c1] is not DEAD else ps[0]]})
+                c2 = self.last()
+                self.do({"op": "bin", "bop": op(), "a": c1, "b": c2})
+                return self.last()
+            f1 = fn1(user_body)
+            if f1 is None:
+                return None
+            x = self.new_input(T)
+            self.do({"op": "call", "f": f1, "args": [x]})
+            called = self.last()
+            a = self.new_input(T)
+            self.do({"op": "arrayOf", "r": a, "size": 3})
+            self.do({"op": "map", "a": self.last(), "f": f1})
+            outs = [r for r in (called, self.last()) if self.m.regs[r] is not DEAD]
+            self.dist["compile"] = self.dist.get("compile", 0) + 1
+            self.m.compile([[r, f"out{i}", self.parties[0]] for i, r in enumerate(outs)])
+            return None
+        if k == "capturedout":
+            # a value computed outside a function, used inside its body *and* delivered as an output of its own (before or
+            # after the output that reaches the function)
+            x = self.new_input(T)
+            self.do({"op": "bin", "bop": op(), "a": x, "b": x})
+            factor = self.last()
+
+            def body(ps, factor=factor):
+                self.do({"op": "bin", "bop": op(), "a": ps[0], "b": factor})
+                return self.last()
+            f = fn1(body)
+            if f is None or self.m.regs[factor] is DEAD:
+                return None
+            y = self.new_input(T)
+            self.do({"op": "call", "f": f, "args": [y]})
+            called = self.last()
+            if self.m.regs[called] is DEAD:
+                return None
+            outs = [[factor, "factor", self.parties[0]], [called, "scaled", self.parties[0]]]
+            if rng.random() < 0.5:
+                outs.reverse()
+            self.dist["compile"] = self.dist.get("compile", 0) + 1
+            self.m.compile(outs)
+            return None
         if k == "litparams":
             # a function with several literal-typed parameters of one type next to a non-literal one, each used at its own
             # place in the body (never literal with literal: that folds, F-C04-1), called with different literal values
             S = rng.choice(["SecretInteger", "PublicInteger"])
             nlit = rng.choice([2, 2, 3])
 
+            packed = rng.choice([None, None, "ntuple", "object"])
+
             def body(ps):
+                if packed == "ntuple":
+                    self.do({"op": "ntupleNew", "xs": list(ps)})
+                    t = self.last()
+                    got = []
+                    for i in range(len(ps)):
+                        self.do({"op": "ntupleGet", "t": t, "i": i})
+                        got.append(self.last())
+                    if all(self.m.regs[g] is not DEAD for g in got):
+                        ps = got
+                elif packed == "object":
+                    self.do({"op": "objectNew", "fs": [[f"f{i}", r] for i, r in enumerate(ps)]})
+                    o = self.last()
+                    got = []
+                    for i in range(len(ps)):
+                        self.do({"op": "objectGet", "o": o, "key": f"f{i}"})
+                        got.append(self.last())
+                    if all(self.m.regs[g] is not DEAD for g in got):
+                        ps = got
                 acc = ps[0]
                 for bop, lp in zip(["sub", "mul", "add"], ps[1:]):
                     self.do({"op": "bin", "bop": bop, "a": acc, "b": lp} if rng.random() < 0.7 else {"op": "bin", "bop": bop, "a": lp, "b": acc})
@@ -929,9 +1021,10 @@ class Gen:
             xi = self.new_input("SecretInteger")
             xu = self.new_input("SecretUnsignedInteger")
             pairs = [(-7, 2), (7, -2), (-7, -2), (2**60 + 1, 1), (10**30 + 1, 7), (10**400, 3), (2**64 - 1, 5), (-(2**70) - 1, 3),
-                     (9007199254740993, 1), (R.big_int(rng), R.big_int(rng) or 1), (R.big_int(rng), rng.choice([2, 3, 10, -3]))]
+                     (9007199254740993, 1), (R.big_int(rng), R.big_int(rng) or 1), (R.big_int(rng), rng.choice([2, 3, 10, -3])),
+                     (10**600 + 7, 1), (10**1100 + 10**20, 10**530 + 3), (-(10**512) - 1, 9), (10**1024, 10**511)]
             outs = []
-            for a, b in rng.sample(pairs, 5):
+            for a, b in rng.sample(pairs, 5) + rng.sample(pairs[-4:], 1):
                 bop = rng.choice(["div", "div", "mod", "add", "sub", "mul"])
                 unsigned = a >= 0 and b > 0 and bop != "sub" and rng.random() < 0.4
                 base = "uint" if unsigned else "int"
